@@ -650,7 +650,11 @@ class PDE(SDEBase):
         cache = self._prepare_cache(state, backend=get_backend("numpy"))
 
         # create an empty copy of the current field
-        result = state.copy()
+        if self.complex_valued and not np.iscomplexobj(state.data):
+            # the rate is complex although the state is real
+            result = state.copy(dtype=complex)
+        else:
+            result = state.copy()
 
         # fill it with data
         if isinstance(state, DataFieldBase):
